@@ -50,6 +50,8 @@ type Exec struct {
 	oblPrefix  string
 	wholeHavoc map[string]bool
 	noPrune     int
+	witness     []*Term
+	noWitness   int
 	caseHint    *caseHint
 	knownWidth  map[int]int
 	collectLocs *[]Loc
@@ -460,7 +462,7 @@ func (e *Exec) enterLoop(fr *Frame, li *loopInfo, pre *State) *State {
 					continue
 				}
 			}
-			e.heapSet(st, n, c.Fresh(n+"@loop", srt))
+			e.heapSet(st, n, c.Fresh(n+"@loop", e.fixSort(srt)))
 		}
 		if mod.allocs {
 			e.bumpAlloc(st)
